@@ -199,5 +199,58 @@ def run(ctx):
             ctx.check(not wrong, 'R3', '%s: FINISHED iff remains <= 0%s or the duration is exhausted%s' % (short, ' and penalty > 0' if has_pen else '', note), where(f, e.line), '; '.join(wrong[:4]),
                       key='R3|%s|finish guard' % short)
     ctx.require(n3 >= 5, 'R3', 'only %d guarded finish(FINISHED) sites found' % n3)
+    # ---- R4 the capacity handed to the solver is cores x the speed of one core now, the same speed that bounds each execution -----------------------
+    ctx.rule('R4', 'CPU on_speed_change: the constraint bound is core_count x (scale x peak), the per-core speed that also bounds every execution on it', 2)
+
+    def factors(t):
+        """multiset of the factors of a product (as pretty strings), or None"""
+        t = strip(t)
+        if t[0] == 'bin' and t[1] == '*':
+            a, b = factors(t[2]), factors(t[3])
+            return None if a is None or b is None else sorted(a + b)
+        if t[0] in ('bin', 'un'):
+            return None
+        return [ex.pretty(t)]
+    n4 = 0
+    for f in sorted(P.fns.values(), key=lambda f_: f_['key']):
+        if not (f['q'].endswith('::on_speed_change') and f.get('blocks') and '/models/' in f['file']):
+            continue
+        evs = list(all_events(A, f))
+        cb = [e for e in evs if e.kind == 'call' and e.q.endswith('System::update_constraint_bound') and len(e.args) == 2]
+        if len(cb) != 1:
+            continue
+        n4 += 1
+        fs = factors(cb[0].args[1])
+        short = f['q'].replace(K, '')
+        percore = None
+        if fs is not None:
+            cores = [x for x in fs if 'core_count' in x]
+            percore = sorted(x for x in fs if 'core_count' not in x)
+            okc = len(cores) == 1 and bool(percore)
+        else:
+            okc = False
+        ctx.check(okc, 'R4', '%s: capacity = core count x the speed of one core' % short, where(f, cb[0].line),
+                  'per-core speed %s' % percore if okc else 'capacity is %s: not a product of the core count and a per-core speed' % ex.pretty(cb[0].args[1]),
+                  key='R4|%s|capacity' % short)
+        # per-execution bound in the same function (and in execution_start of the same class)
+        cls = f['q'].rsplit('::', 1)[0]
+        for g in [f] + [g_ for g_ in P.fns.values() if g_['q'] == cls + '::execution_start' and g_.get('blocks') and len(g_['params']) == 3]:
+            for e in all_events(A, g):
+                t = None
+                if e.kind == 'assign' and e.lhs[0] == 'var' and e.lhs[2] == 'bound' and e.decl:
+                    t = e.rhs
+                elif e.kind == 'new' and 'Action' in e.nf[1] and e.nf[2]:
+                    a_ = e.nf[2][0][2] if e.nf[2][0][0] == 'ctor' else e.nf[2]
+                    t = a_[3] if len(a_) > 3 else None
+                if t is None:
+                    continue
+                ft = factors(t)
+                if ft is None:
+                    continue
+                pc = sorted(x for x in ft if 'core' not in x)
+                n4 += 1
+                ctx.check(pc == percore, 'R4', '%s: an execution is bounded by (cores requested x) the same per-core speed as the capacity' % g['q'].replace(K, ''), where(g, e.line),
+                          'execution bound uses %s, capacity uses %s' % (pc, percore), key='R4|%s|per-core speed' % g['q'].replace(K, ''))
+    ctx.require(n4 >= 2, 'R4', 'only %d capacity / execution bound computations found' % n4)
     ctx.assume('rates and elapsed times are non-negative (C03-R2: time_delta >= 0; C15 is not decided); the load <= capacity and the S*min(1, n/k) clauses are numeric and not decided')
     return EXPLANATION
